@@ -20,6 +20,9 @@ var verifDistQueries = []string{
 	`group(foo)`,
 	`count(foo) + 1`,
 	`count by (b) (foo)`,
+	`count without (b) (foo)`,
+	`min without (a) (foo)`,
+	`group without (a, b) (foo)`,
 	`sum by (b) (foo)`,
 	`max by (a) (foo)`,
 	`-max(foo)`,
@@ -67,7 +70,7 @@ func verifSameMatrix(site string, a, b *promql.Result, knownID string, region bo
 // VerifH10p: a query through the distributed engine over disjoint partitions returns
 // what one engine returns over the union (whole pipeline on both sides, symbolic data).
 func VerifH10p() {
-	qs := verifDistQueries[sym.Choice("query", sym.Tier(7, len(verifDistQueries)))]
+	qs := verifDistQueries[sym.Choice("query", sym.Tier(9, len(verifDistQueries)))]
 	start := sym.Int64("start", 0, verifR)
 	step := sym.Int64("step", 1, verifR)
 	lookback := sym.Int64("lookback", 1, verifR)
